@@ -46,7 +46,7 @@ def replay_kani(ob, r, ctx):
     else:
         crate = vlib.repo_copy()
         cmd = 'cd %s && cargo kani -Z stubbing --harness %s --target-dir %s -Z concrete-playback --concrete-playback=inplace' % (crate, ob.harness, vlib.KANI_TARGET)
-    rc, out, secs = run(cmd, timeout=max(ob.timeout, 600), mem_gb=ob.mem_gb)
+    rc, out, secs = run(cmd, timeout=max(2 * ob.timeout, 1200), mem_gb=max(40, ob.mem_gb))  # the JSON trace needs far more memory than the SAT run
     tests = re.findall(r'fn (kani_concrete_playback_\w+)', out)
     body = ['--- Kani concrete playback (inplace) output tail ---', out[-3000:], '']
     if not tests:
@@ -58,13 +58,47 @@ def replay_kani(ob, r, ctx):
     if r.engine == 'K-real':
         # stubs are not applied in native playback; the values are reported, reproduction is through the stubs' contracts
         return '\n'.join(body), True, 'K-real: concrete values printed; native playback not applicable with stubs'
+    patch_playback_tests(crate)
     ok_any = False
-    for t in sorted(set(tests))[:6]:
+    body += ['--- concrete playback unit tests (inserted into the scratch copy of the harness crate) ---', playback_sources(crate), '']
+    for t in sorted(set(tests))[:8]:
         rc2, out2, _ = run('cd %s && cargo kani playback -Z concrete-playback -- %s' % (crate, t), timeout=900, mem_gb=16)
-        failed = bool(re.search(r'test result: FAILED|panicked at', out2))
-        body += ['--- native playback of %s: %s ---' % (t, 'PANICS (reproduced)' if failed else 'does not fail'), out2[-1500:], '']
+        failed = bool(re.search(r'test result: FAILED', out2))
+        msg = re.findall(r"panicked at [^\n]*\n[^\n]*", out2)
+        body += ['--- native playback of %s: %s ---' % (t, 'PANICS (reproduced): ' + ' | '.join(m.replace('\n', ' ') for m in msg[:2]) if failed else 'passes (a cover witness or not reproduced)'), '']
+        if not failed and 'test result: ok' not in out2:
+            body += [out2[-1500:]]
         ok_any = ok_any or failed
     return '\n'.join(body), ok_any, 'native playback of the extracted text on the model types'
+
+
+def patch_playback_tests(crate):
+    """The generated tests use `Vec`/`vec!`, which inside the harness module name the MODEL Vec: qualify them."""
+    for root, _, files in os.walk(os.path.join(crate, 'src')):
+        for f in files:
+            if not f.endswith('.rs'):
+                continue
+            p = os.path.join(root, f)
+            s = open(p).read()
+            if 'kani_concrete_playback_' not in s:
+                continue
+
+            def fix(m):
+                t = m.group(0)
+                t = t.replace('let concrete_vals: Vec<Vec<u8>> = vec![', 'let concrete_vals: std::vec::Vec<std::vec::Vec<u8>> = std::vec![')
+                return re.sub(r'(?<![:\w])vec!\[', 'std::vec![', t)
+            s = re.sub(r'fn kani_concrete_playback_\w+\(\) \{.*?\n    \}', fix, s, flags=re.S)
+            open(p, 'w').write(s)
+
+
+def playback_sources(crate):
+    out = []
+    for root, _, files in os.walk(os.path.join(crate, 'src')):
+        for f in files:
+            if f.endswith('.rs'):
+                s = open(os.path.join(root, f)).read()
+                out += re.findall(r'#\[test\]\s*fn kani_concrete_playback_\w+\(\) \{.*?\n    \}', s, flags=re.S)
+    return '\n\n'.join(out)
 
 
 def find_playback_tests(crate):
